@@ -6,7 +6,10 @@ import BytomModel.Drv.Util
      main <height> <id>         → ok     (main-chain index entry; later lines overwrite)
      nobody <id>                → ok     (GetBlockByHash fails for this block)
      lh <skip> <maxNum> <stop> <locator ids…>      → `ok id:h …` | `ok -` | `err`
-     lb <timeoutAfter> <stop> <locator ids…>       → same, for locateBlocks            -/
+     lb <timeoutAfter> <stop> <locator ids…>       → same, for locateBlocks
+     hh <skip> <stop> <locator ids…>  → what handleGetHeadersMsg sends: `none` | `ok id:h …`
+     hb <stop> <locator ids…>         → what handleGetBlocksMsg sends (no timeout, everything fits)
+     gb|gm <height> <id>              → what handleGetBlockMsg / handleGetMerkleBlockMsg sends  -/
 namespace BytomModel.Drv.C33
 open BytomModel.Drv BytomModel.Model.Sync
 
@@ -19,6 +22,10 @@ def showOut : Outcome Header → String
   | .err => "err"
   | .ok [] => "ok -"
   | .ok hs => "ok " ++ " ".intercalate (hs.map (fun h => s!"{h.id}:{h.height}"))
+
+def showResp : Option (List Header) → String
+  | none => "none"
+  | some hs => showOut (.ok hs)
 
 def nats (ws : List String) : Option (List Nat) := ws.mapM String.toNat?
 
@@ -42,6 +49,20 @@ def step (s : St) (line : String) : St × String :=
     | some (tmo :: stop :: loc) =>
       (s, showOut (locateBlocks (chainOf s.blocks s.main) (fun id => !s.nobody.contains id) loc stop tmo))
     | _ => (s, "bad-op")
+  | "hh" :: rest => match nats rest with
+    | some (skip :: stop :: loc) =>
+      (s, showResp (handleGetHeaders (chainOf s.blocks s.main) loc stop skip))
+    | _ => (s, "bad-op")
+  | "hb" :: rest => match nats rest with
+    | some (stop :: loc) =>
+      (s, showResp (handleGetBlocks (chainOf s.blocks s.main) (fun id => !s.nobody.contains id) loc stop 1000000 1000000))
+    | _ => (s, "bad-op")
+  | [k, a, b] => match a.toNat?, b.toNat? with
+    | some h, some id =>
+      if k == "gb" || k == "gm" then
+        (s, showResp ((handleGetBlock (chainOf s.blocks s.main) (fun id => !s.nobody.contains id) h id).map (fun x => [x])))
+      else (s, "bad-op")
+    | _, _ => (s, "bad-op")
   | _ => (s, "bad-op")
 
 def run (_args : List String) : IO Unit := lineLoop ({} : St) step
